@@ -112,7 +112,7 @@ fn ensure_constraints(ch: &mut Choices, prog: &mut Program, want: usize) {
 
 /// Inject ≥ 1 violation; returns the label of the injection class.
 pub fn inject(ch: &mut Choices, prog: &mut Program) -> String {
-    let class = ch.weighted(&[20, 9, 11, 16, 13, 11, 11, 9]);
+    let class = ch.weighted(&[18, 8, 10, 15, 12, 10, 10, 8, 9]);
     let e = ScalarSpec::gen_nonzero(ch);
     let neg = |s: &ScalarSpec| -> Option<ScalarSpec> {
         Some(match s {
@@ -219,6 +219,11 @@ pub fn inject(ch: &mut Choices, prog: &mut Program) -> String {
                 "forward-reference(n/a)".into()
             }
         }
+        // the witness misses a constraint by exactly one sign-flipped / dropped / doubled term
+        8 => match crate::program::add_near_miss(ch, prog) {
+            Some(l) => format!("near-miss:{}", l.split(':').next().unwrap_or("")),
+            None => "near-miss(n/a)".into(),
+        },
         // a gate error offset by a linear error of the same size
         _ => {
             if prog.shape().n() == 0 {
